@@ -36,6 +36,13 @@ class DynCase:
             w.items.append("item-file.dat")
             w.filters.append(None)
             self.victim = os.path.join(w.src, "item-file.dat")
+        # an EARLIER item holding exactly the first half of the victim: a victim cut to that length during its first pass then has content the
+        # group already stores
+        if size >= 2:
+            w.items.insert(0, "a-first")
+            w.filters.insert(0, None)
+            os.makedirs(os.path.join(w.src, "a-first"))
+            w.write_file(os.path.join(w.src, "a-first", "prefix-half"), data[:size // 2])
         # a later item (configuration order is the walk order) holding a file with the victim's ORIGINAL content: if the run registers
         # a hash it never stores, this file is the one that ends up referring to it
         w.items.append("item9")
@@ -173,6 +180,21 @@ def evaluate(case, r, rules, label):
                 final = None
             if final is not None and not final.startswith(restored):
                 return ("C15", "%s: the file only grew during the run but the restored bytes are not a prefix of what was on disk" % label)
+        # a file that was replaced / rewritten BEFORE it was opened did not change while being read: its line must be truthful (C10)
+        if r["fired"] and all(p in ("lstat", "open") for p, _, _, _ in rules):
+            try:
+                st = os.lstat(case.victim)
+                with open(case.victim, "rb") as f:
+                    final = f.read()
+            except OSError:
+                st, final = None, None
+            if st is not None and stat.S_ISREG(st.st_mode):
+                if line["size"] != len(final) or line["hash"] != sha512(final):
+                    return ("C10 C15", "%s: the file did not change while it was read (it was replaced before it was opened), yet its line says size=%d hash=%s.. "
+                            "while the source file has %d bytes, sha512 %s.." % (label, line["size"], line["hash"][:12], len(final), sha512(final)[:12]))
+                if line["fp"] != [st.st_dev, st.st_ino, st.st_mtime_ns]:
+                    return ("C10 C15", "%s: the file did not change while it was read, yet its fingerprint %s is not the source file's (%d, %d, %d)"
+                            % (label, line["fp"], st.st_dev, st.st_ino, st.st_mtime_ns))
         if not r["fired"] and restored != case.original:
             return ("C15", "%s: no change happened but the file is not restored exactly" % label)
     elif line is not None:
@@ -210,7 +232,7 @@ def schedules(size, counts):
     for p, k in points:
         offset = ((k - 1) % per_pass) * BUF if p == "read" else 0
         acts = [("truncate", 0), ("truncate", size // 2), ("append", 1000), ("append", 3 * BUF), ("unlink", 0), ("mkdir", 0), ("symlink", 0),
-                ("rewrite", size), ("rewrite", size + 5000)]
+                ("rewrite", size), ("rewrite", size + 5000), ("replace", size + 4000), ("replace", size // 2)]
         if p == "read":
             acts += [("truncate", max(0, offset - 1)), ("truncate", min(size, offset + 1))]
         for a, arg in acts:
@@ -233,12 +255,24 @@ def sweep(ctx, rng, budget, report, focus=None):
             if focus is None or focus(size, where, previous, rules):
                 todo.append((size, where, previous, rules))
     ctx.count("dyn.schedules_total", len(todo))
+    # schedules that are always run, whatever the budget: one per distinct decision of add_file (first pass cut to content the group already
+    # stores; content replaced between the passes; second pass cut short; shrink-then-grow inside the second pass)
+    must = []
+    for size in (20000, 70000):
+        for where in ("nested", "top"):
+            counts = reference_counts(ctx, rng, size, where, None)
+            pp = max(1, counts["read"] // 2)
+            for rules in ([("open", 1, "replace", size + 4000)], [("read", 1, "truncate", size // 2)], [("read", pp + 1, "rewrite", size)], [("read", pp + 2, "truncate", size // 3)],
+                          [("read", pp + 1, "truncate", 0), ("read", pp + 2, "regrow", 2 * size)]):
+                if focus is None or focus(size, where, None, rules):
+                    must.append((size, where, None, rules))
     if budget is not None and len(todo) > budget:
         # keep the mix: two-step schedules and read points are where the reader's logic lives
         two = [t for t in todo if len(t[3]) > 1 and t[2] != "shortcut"]
         reads = [t for t in todo if len(t[3]) == 1 and t[3][0][0] == "read" and t[2] != "shortcut"]
         rest = [t for t in todo if t not in two and t not in reads]
         todo = rng.sample(two, min(len(two), budget // 3)) + rng.sample(reads, min(len(reads), budget // 2)) + rng.sample(rest, min(len(rest), budget // 6))
+        todo = must + [t for t in todo if t not in must]
     for size, where, previous, rules in todo:
         with slevel.Sandbox("dyn") as sb:
             case = DynCase(ctx, sb, rng, size, where, previous)
